@@ -44,8 +44,13 @@ JudgeHist(e) ==
       RECURSIVE All(_)
       All(i) == IF i > Len(e.calls) THEN <<>> ELSE One(i) \o All(i + 1)
   IN All(1)
-JudgeRt(e) == IF e.ok /\ Same(e.res, e.orig) THEN <<>>
-              ELSE <<[i |-> c, kind |-> "not-inverse", api |-> e.api, t |-> "shape", pos |-> 0, pred |-> <<>>, m |-> e.m]>>
+\* Inverse also means that the result is as independent as the original: two positions of the recomposed value share a
+\* pointer target, a map or a slice backing array (e.alias, pointer identity observed by the harness) only if the
+\* original did (deep equality alone cannot see that writing one element changes another)
+JudgeRt(e) == (IF e.ok /\ Same(e.res, e.orig) THEN <<>>
+               ELSE <<[i |-> c, kind |-> "not-inverse", api |-> e.api, t |-> "shape", pos |-> 0, pred |-> <<>>, m |-> e.m]>>)
+              \o (IF e.ok /\ e.alias /\ ~e.oalias
+                  THEN <<[i |-> c, kind |-> "aliased", api |-> e.api, t |-> "shape", pos |-> 0, pred |-> <<>>, m |-> ""]>> ELSE <<>>)
 
 TraceInit == c = 1 /\ reg = EmptyReg /\ hist = <<>> /\ outs = <<>> /\ TLCSet(1, <<>>) /\ TLCSet(2, 0) /\ TLCSet(3, 0)
 TStep == /\ c <= N /\ c' = c + 1 /\ UNCHANGED <<reg, hist, outs>>
